@@ -2,7 +2,7 @@
 
 Schema: P(id, x) --children / parent--< C(id, pid -> P.id NULL-able, y, kind); Sub = single-table subclass of C
 (polymorphic identity 1, C itself 0).
-Case format (tree):  [db, query, style]
+Case format (tree):  [db, query, style, slice]
   db     [[[id, x | None] ...], [[id, pid | None, y | None, kind] ...]]
   sx     column criterion on the value column of one entity (P.x / C.y):
          [0] true | [1, op, k] col <op> k (0 == 1 != 2 < 3 <= 4 > 5 >=) | [2] IS NULL | [3, a, b] and | [4, a, b] or | [5, a] not
@@ -15,7 +15,14 @@ Case format (tree):  [db, query, style]
            2 of_type(Sub), 3 join(Sub, P.id == Sub.pid) (hand-written ON clause); colmode 0 (P, T), 1 (P, T.y), 2 (P.x, T)
          | [3, outer, sxc, sxp] select(C, P).join(C.parent) | [4, sxc] select(P, count(C.id)).outerjoin(P.children).group_by(P.id)
          | [5, pcrit, pcrit] select(aliased(P, union(select(P).where(a), select(P).where(b)).subquery()))
+         | [6, ncrit] select(Node) over the self-referential Node(id, parent_id, data):
+           ncrit [0, sx] on Node.data | [1, sx] Node.children.any(sx) | [2, sx] Node.parent.has(sx)
+           | [3, k] Node.children.any(data=k) | [4, k] Node.parent.has(data=k)  (keyword forms) | [5,a,b] and | [6,a,b] or | [7,a] not
+         | [7, v, sx] the single-table subclass twice as separate FROM entities: v 0 select(Sub, SubA), 1 select(SubA1, SubA2),
+           2 select(Sub.id, SubA.id); .where(X.pid == Y.pid, sx on Y.y)
   style  0 select() + Session.execute() | 1 legacy Session.query()
+  slice  [offset, limit]  (limit -1: none) applied to the statement with .offset() / .limit()
+  db     third component: rows of Node as [id, parent_id | None, data | None, 0]
 Observation: [rows, count, exists]; a row is a list of items: entity -> [object number (first occurrence, by identity), pk],
 None entity -> [], column value -> int | [].  An exception is observed as rows [[-9]] / count -9 / exists -9.
 """
@@ -31,7 +38,9 @@ RULE = (
     "duplicates under projection) x an enumerated query grammar: every atom of pcrit / ccrit over 5 column criteria and "
     "its negation, every join shape (inner/outer x target C / aliased / of_type(Sub) / Sub with a hand-written ON clause x 3 column modes x 4 criteria "
     "pairs), group-by and union queries, each in both styles (select()+execute, legacy Query); plus random databases "
-    "(<= 4 parents, <= 5 children) with random queries of depth <= 2. Compared with the model: the rows as entity "
+    "(<= 4 parents, <= 5 children, <= 5 self-referential nodes) with random queries of depth <= 2; self-referential "
+    "any()/has() in expression and keyword form; the single-table subclass twice as separate FROM entities; "
+    "LIMIT/OFFSET followed by count()/exists() on every shape. Compared with the model: the rows as entity "
     "identities + primary keys / values, count, exists. non-trivial = the query navigates the relationship (join, "
     "any/has/contains, subquery) and the database has a child with a NULL foreign key or a NULL value"
 )
@@ -49,8 +58,9 @@ TRUSTED = [
 ]
 ASSUMPTIONS = [
     "one one-to-many / many-to-one relationship pair with a simple foreign key, integer columns, a single-table "
-    "subclass as of_type() target; many-to-many (secondary), composite keys, self-referential relationships, "
-    "joined eager loading, yield_per, column_property / hybrid expressions, nested any() inside has() are not modelled",
+    "subclass as of_type() target; many-to-many (secondary), composite keys, self-referential joins (only self-referential any()/has()), "
+    "joined eager loading, yield_per, column_property / hybrid expressions, nested any() inside has() are not "
+    "modelled (a self-referential one-to-many / many-to-one pair is: Node.children / Node.parent)",
     "fresh Session per query (empty identity map); objects handed to contains() are loaded from the database",
     "ClauseAdapter / aliasing internals are exercised by the aliased and union cases but not modelled (aliases are "
     "semantically transparent)",
@@ -74,6 +84,8 @@ ANCHORS = [
     ("lib/sqlalchemy/orm/query.py", "Query._iter"),
     ("lib/sqlalchemy/orm/query.py", "Query.count"),
     ("lib/sqlalchemy/orm/query.py", "Query.exists"),
+    ("lib/sqlalchemy/orm/query.py", "Query._from_selectable"),
+    ("lib/sqlalchemy/orm/query.py", "Query._legacy_from_self"),
 ]
 
 
@@ -88,11 +100,13 @@ def translate(repo, outdir):
 SX_ATOMS = [[0], [1, 0, 1], [1, 4, 1], [2], [5, [1, 0, 1]]]
 DBS = [
     # parents 1 (x=1), 2 (x NULL), 3 (x=2, no children); children incl. an orphan (9), Sub rows, NULL y, duplicates of y
-    [[[1, 1], [2, None], [3, 2]], [[4, 1, 1, 0], [5, 1, 1, 1], [6, 2, None, 1], [7, 2, 2, 0], [9, None, 1, 1]]],
+    [[[1, 1], [2, None], [3, 2]], [[4, 1, 1, 0], [5, 1, 1, 1], [6, 2, None, 1], [7, 2, 2, 0], [9, None, 1, 1]],
+     [[1, None, 1, 0], [2, 1, 0, 0], [3, 2, 1, 0], [4, None, 0, 0], [5, 1, None, 0]]],
     # every child of parent 1 is a non-Sub; parent 2 has only Sub children
-    [[[2, 0], [1, 3]], [[1, 1, 0, 0], [2, 1, 3, 0], [3, 2, 3, 1], [8, None, None, 0]]],
+    [[[2, 0], [1, 3]], [[1, 1, 0, 0], [2, 1, 3, 0], [3, 2, 3, 1], [8, None, None, 0], [4, 2, 1, 1]],
+     [[2, 2, 1, 0], [1, 2, 3, 0]]],
     # no children at all / a single parent
-    [[[5, None]], []],
+    [[[5, None]], [], []],
 ]
 
 
@@ -138,11 +152,30 @@ def _gdb(rng):
         [i, rng.choice([None] + [p[0] for p in ps] * 2), rng.choice(V), rng.randint(0, 1)]
         for i in rng.sample(range(1, 10), rng.randint(0, 5))
     ]
-    return [ps, cs]
+    ids = rng.sample(range(1, 9), rng.randint(0, 5))
+    ns = [[i, rng.choice([None] + ids * 2), rng.choice(V), 0] for i in ids]
+    return [ps, cs, ns]
+
+
+def _gnc(rng, d=2):
+    k = rng.choice([0, 1, 2, 3, 3, 4, 4, 5, 6, 7]) if d > 0 else rng.choice([0, 1, 2, 3, 4])
+    if k in (0, 1, 2):
+        return [k, _gsx(rng, 1)]
+    if k in (3, 4):
+        return [k, rng.choice([0, 1, 2, 3])]
+    if k in (5, 6):
+        return [k, _gnc(rng, d - 1), _gnc(rng, d - 1)]
+    return [7, _gnc(rng, d - 1)]
+
+
+def _gslice(rng):
+    if rng.random() < 0.6:
+        return [0, -1]
+    return [rng.choice([0, 1, 1, 2, 3]), rng.choice([-1, -1, 0, 1, 2, 4])]
 
 
 def _gq(rng, db):
-    sh = rng.choice([0, 0, 1, 2, 2, 3, 4, 5])
+    sh = rng.choice([0, 0, 1, 2, 2, 3, 4, 5, 6, 6, 7])
     if sh == 0:
         return [0, _gpc(rng, db)]
     if sh == 1:
@@ -153,6 +186,10 @@ def _gq(rng, db):
         return [3, rng.randint(0, 1), _gsx(rng, 1), _gsx(rng, 1)]
     if sh == 4:
         return [4, _gsx(rng, 1)]
+    if sh == 6:
+        return [6, _gnc(rng)]
+    if sh == 7:
+        return [7, rng.randrange(3), _gsx(rng, 1)]
     return [5, _gpc(rng, db, 1), _gpc(rng, db, 1)]
 
 
@@ -178,6 +215,13 @@ def _enum_queries(db, rng, tier):
         qs.append([4, s])
     for a, b in [(patoms[1], patoms[6]), (patoms[0], patoms[3]), ([6, patoms[-1]], patoms[2]), (patoms[-1], patoms[-2])]:
         qs.append([5, a, b])
+    natoms = [[k, s] for k in (0, 1, 2) for s in SX_ATOMS] + [[k, v] for k in (3, 4) for v in (0, 1, 3)]
+    for a in natoms:
+        qs.append([6, a])
+        qs.append([6, [7, a]])
+    for v in (0, 1, 2):
+        for sc in SX_ATOMS[:3]:
+            qs.append([7, v, sc])
     return qs
 
 
@@ -186,18 +230,27 @@ def gen_cases(rng, tier):
     for db in DBS:
         for q in _enum_queries(db, rng, tier):
             for style in (0, 1):
-                cases.append({"in": [db, q, style], "kind": "enum%d" % q[0]})
+                cases.append({"in": [db, q, style, [0, -1]], "kind": "enum%d" % q[0]})
+    # LIMIT / OFFSET followed by count() / exists(), every shape, both styles
+    for db in DBS[:2]:
+        qs = [[0, [0, [0]]], [1, [0, [0]]], [2, 0, 0, [0], [0], 0], [2, 1, 2, [0], [0], 1], [3, 1, [0], [0]], [4, [0]],
+              [5, [0, [1, 0, 1]], [1, [0]]], [6, [0, [0]]], [7, 0, [0]]]
+        for q in qs:
+            for sl in ([1, -1], [2, -1], [0, 2], [1, 1], [2, 3], [9, -1]):
+                for style in (0, 1):
+                    cases.append({"in": [db, q, style, sl], "kind": "slice"})
     for _ in range(4000 if tier == "thorough" else 330):
         db = _gdb(rng)
         for _ in range(3):
-            cases.append({"in": [db, _gq(rng, db), rng.randint(0, 1)], "kind": "random"})
+            cases.append({"in": [db, _gq(rng, db), rng.randint(0, 1), _gslice(rng)], "kind": "random"})
     return cases
 
 
 def nontrivial(c):
-    db, q, style = c["in"]
+    db, q, style, sl = c["in"]
     nullish = any(r[1] in (None, []) or r[2] in (None, []) for r in db[1])
-    return nullish and (q[0] in (2, 3, 4) or _navigates(q[1:]))
+    nullish = nullish or any(r[1] in (None, []) or r[2] in (None, []) for r in db[2])
+    return nullish and (q[0] in (2, 3, 4, 7) or _navigates(q[1:]))
 
 
 def _navigates(t):
@@ -240,8 +293,17 @@ def _mapping():
     class Sub(C):
         __mapper_args__ = {"polymorphic_identity": 1}
 
+    class Node(Base):
+        __tablename__ = "node"
+        id = Column(Integer, primary_key=True)
+        parent_id = Column(ForeignKey("node.id"))
+        data = Column(Integer)
+        children = relationship("Node", back_populates="parent", order_by="Node.id")
+        parent = relationship("Node", back_populates="children", remote_side=[id])
+
     configure_mappers()
     _M["v"] = (Base, P, C, Sub)
+    _M["node"] = Node
     return _M["v"]
 
 
@@ -319,6 +381,35 @@ def _ccrit(t, Ce, s, orm):
     return not_(_ccrit(t[1], Ce, s, orm))
 
 
+def _ncrit(t, Ne, orm):
+    from sqlalchemy import and_, exists, not_, or_
+
+    _mapping()
+    Node = _M["node"]
+    k = t[0]
+    if k == 0:
+        return _sx(t[1], Ne.data if orm else Ne.c.data)
+    if k in (1, 2, 3, 4):
+        if orm:
+            if k == 1:
+                return Ne.children.any(_sx(t[1], Node.data))
+            if k == 2:
+                return Ne.parent.has(_sx(t[1], Node.data))
+            if k == 3:
+                return Ne.children.any(data=t[1])
+            return Ne.parent.has(data=t[1])
+        rel = Node.__table__.alias()  # the related row
+        crit = _sx(t[1], rel.c.data) if k in (1, 2) else rel.c.data == t[1]
+        if k in (1, 3):
+            return exists().where(rel.c.parent_id == Ne.c.id, crit).correlate(Ne)
+        return exists().where(rel.c.id == Ne.c.parent_id, crit).correlate(Ne)
+    if k == 5:
+        return and_(_ncrit(t[1], Ne, orm), _ncrit(t[2], Ne, orm))
+    if k == 6:
+        return or_(_ncrit(t[1], Ne, orm), _ncrit(t[2], Ne, orm))
+    return not_(_ncrit(t[1], Ne, orm))
+
+
 def _kinds(q):
     """per result column: "P" / "C" entity or None for a plain value"""
     sh = q[0]
@@ -330,6 +421,10 @@ def _kinds(q):
         return {0: ["P", "C"], 1: ["P", None], 2: [None, "C"]}[q[5]]
     if sh == 3:
         return ["C", "P"]
+    if sh == 6:
+        return ["N"]
+    if sh == 7:
+        return [None, None] if q[1] == 2 else ["C", "C"]
     return ["P", None]
 
 
@@ -367,6 +462,14 @@ def _orm_stmt(q, s, legacy):
     if sh == 4:
         st = sel(P, func.count(C.id)).outerjoin(P.children)
         return getattr(st, wh)(_sx(q[1], C.y)).group_by(P.id).order_by(P.id)
+    if sh == 6:
+        Node = _M["node"]
+        return getattr(sel(Node), wh)(_ncrit(q[1], Node, True)).order_by(Node.id)
+    if sh == 7:
+        A = aliased(Sub) if q[1] == 1 else Sub
+        B = aliased(Sub)
+        cols = [A.id, B.id] if q[1] == 2 else [A, B]
+        return getattr(sel(*cols), wh)(A.pid == B.pid, _sx(q[2], B.y)).order_by(A.id, B.id)
     if legacy:
         q1 = s.query(P).filter(_pcrit(q[1], P, s, True))
         q2 = s.query(P).filter(_pcrit(q[2], P, s, True))
@@ -403,6 +506,16 @@ def _core_stmt(q, s):
     if sh == 4:
         j = pt.outerjoin(ct, ct.c.pid == pt.c.id)
         return select(pt.c.id, func.count(ct.c.id)).select_from(j).where(_sx(q[1], ct.c.y)).group_by(pt.c.id).order_by(pt.c.id)
+    if sh == 6:
+        nt = _M["node"].__table__
+        return select(nt.c.id).where(_ncrit(q[1], nt, False)).order_by(nt.c.id)
+    if sh == 7:
+        a, b = ct.alias(), ct.alias()
+        return (
+            select(a.c.id, b.c.id)
+            .where(a.c.pid == b.c.pid, _sx(q[2], b.c.y), a.c.kind == 1, b.c.kind == 1)
+            .order_by(a.c.id, b.c.id)
+        )
     u = union(select(pt).where(_pcrit(q[1], pt, s, False)), select(pt).where(_pcrit(q[2], pt, s, False))).subquery()
     return select(u.c.id).order_by(u.c.id)
 
@@ -418,7 +531,7 @@ def impl(c):
     from sqlalchemy.orm import Session
 
     warnings.simplefilter("ignore")
-    db, q, style = c["in"]
+    db, q, style, (off, lim) = c["in"]
     Base, P, C, Sub = _mapping()
     e = create_engine("sqlite://")
     try:
@@ -428,9 +541,15 @@ def impl(c):
                 conn.execute(insert(P.__table__).values(id=i, x=_n(x)))
             for i, pid, y, kind in db[1]:
                 conn.execute(insert(C.__table__).values(id=i, pid=_n(pid), y=_n(y), kind=kind))
+            for i, pid, y, _k in sorted(db[2], key=lambda r: r[0]):
+                conn.execute(insert(_M["node"].__table__).values(id=i, parent_id=_n(pid), data=_n(y)))
         kinds = _kinds(q)
         with Session(e) as s:
             st = _orm_stmt(q, s, bool(style))
+            if off:
+                st = st.offset(off)
+            if lim >= 0:
+                st = st.limit(lim)
             # an exception is an observation (-9), never a crash of the driver
             try:
                 if style == 0:
@@ -443,17 +562,22 @@ def impl(c):
                 res = None
             try:
                 if style == 0:
-                    cnt = s.scalar(select(func.count()).select_from(st.order_by(None).subquery()))
+                    cnt = s.scalar(select(func.count()).select_from(st.subquery()))
                 else:
                     cnt = st.count()
             except Exception:
                 cnt = -9
             try:
-                exi = s.scalar(select(st.order_by(None).exists())) if style == 0 else s.query(st.exists()).scalar()
+                exi = s.scalar(select(st.exists())) if style == 0 else s.query(st.exists()).scalar()
             except Exception:
                 exi = -9
+            cst = _core_stmt(q, s)
+            if off:
+                cst = cst.offset(off)
+            if lim >= 0:
+                cst = cst.limit(lim)
             if res is None:
-                core = [list(r) for r in s.execute(_core_stmt(q, s)).all()]
+                core = [list(r) for r in s.execute(cst).all()]
                 _LAST.clear()
                 _LAST[json.dumps(c["in"])] = core
                 return [[[-9]], cnt, exi if exi == -9 else int(bool(exi))]
@@ -469,7 +593,7 @@ def impl(c):
                     else:
                         row.append([seen.setdefault(id(v), len(seen)), v.id])
                 rows.append(row)
-            core = [list(r) for r in s.execute(_core_stmt(q, s)).all()]
+            core = [list(r) for r in s.execute(cst).all()]
         _LAST.clear()
         _LAST[json.dumps(c["in"])] = core
         return [rows, cnt, exi if exi == -9 else int(bool(exi))]
@@ -495,7 +619,7 @@ def _orphan_contains(db, t):
 
 
 def oracle(c, obs):
-    db, q, style = c["in"]
+    db, q, style, sl = c["in"]
     key = json.dumps(c["in"])
     if key not in _LAST:
         impl(c)
@@ -505,6 +629,8 @@ def oracle(c, obs):
         return "rows: the ORM query raised; the equivalent Core query returns %s" % (core,)
     if cnt == -9 or exi == -9:
         return "count: count() / exists() raised for a query that returns %d rows" % len(rows)
+    if cnt in (None, []):
+        return "count: count() returned None for a query that returns %d rows" % len(rows)
     kinds = _kinds(q)
     vals = [[(it[1] if it else None) if k else _n(it) for k, it in zip(kinds, r)] for r in rows]
     # identity map: one object per (class, primary key)
@@ -528,9 +654,11 @@ def oracle(c, obs):
 
 
 def match_finding(c, what):
-    db, q, style = c["in"]
+    db, q, style, sl = c["in"]
     if what.startswith("legacy-uniquing:") and style == 1:
         return "C41-legacy-query-uniquing"
+    if what.startswith("exists:") and style == 1 and q[0] == 5 and sl != [0, -1]:
+        return "C41-legacy-union-exists-cartesian"
     if what.startswith("contains-orphan:") and _negated_orphan(db, q[1:], False):
         return "C41-not-contains-orphan"
     return None
